@@ -111,6 +111,10 @@ def run(st, tier, seed):
                 if probs:
                     res.violations.append({"what": "finished sequences do not satisfy the source program: " + probs[0], "input": inp,
                                            "observed": probs[:5], "seqs": out["seqs"], "sig": "C06:satsrc", "cmd": "pepper-finish"})
+                lp = pipeline.listing_problems(b, out["seqs"])
+                if lp:
+                    res.violations.append({"what": "the .seqs file does not list every sequence, strand and structure of the source: " + lp[0],
+                                           "input": inp, "observed": lp[:5], "seqs": out["seqs"], "sig": "C06:listing", "cmd": "pepper-finish"})
             elif kind == "mfe":
                 res.disagreements_checked += 1
                 import re as _re
